@@ -22,7 +22,7 @@ TRUSTED_BASE = [
     "(SimulationEngine: splitting, counters, remove queues), include/vata/explicit_lts.hh, src/util/splitting_relation.hh, shared_counter.hh, "
     "shared_list.hh, caching_allocator.hh, smart_set.hh, BinaryRelation; tied by exact comparison of the returned relation on generated inputs",
 ]
-ASSUMPTIONS = [
+ASSUMPTIONS = ["an ExplicitLTS may be extended by addTransition over labels it already has after init() and initialised again (the driver builds every second object in two such phases); a label that first appears after init() is not used that way (init() does not support it on the unchanged sources)", 
     "inputs satisfy the engine's documented preconditions (isPartition, isConsistent in explicit_lts_sim.cc; asserts are compiled out): "
     "blocks non-empty, every state below states() in exactly one block, block relation reflexive; generated block relations are also transitive "
     "as the property says; the model main re-checks this on every case (gate badcase)",
